@@ -491,7 +491,7 @@ def correspondence(ctx):
     nsh = max(1, min(core.NPROC, len(goals)))
     files = []
     for s in range(nsh):
-        path = os.path.join(core.CASES, "%s_tie_%d.v" % (ctx.pid, s))
+        path = os.path.join(core.CASES, "%s_p%d_tie_%d.v" % (ctx.pid, os.getpid(), s))
         with open(path, "w") as f:
             f.write(HEADER + "\n".join(goals[s::nsh]) + "\n")
         files.append(path)
